@@ -212,7 +212,7 @@ def nontrivial(ev, data):
 def run(ctx):
     quick = ctx.tier == "quick"
     # ---------------------------------------------------------------- M2: cases from TLC
-    cases, g = gen_cases(ctx, "Gen_Iter.cfg", simulate="num=%d" % (40 if quick else 700), depth=20, seed=ctx.seed)
+    cases, g = gen_cases(ctx, "Gen_Iter.cfg", simulate="num=%d" % (40 if quick else 250), depth=20, seed=ctx.seed)
     ctx.log("IterGen -simulate: %d behaviours (%.0fs)" % (len(cases), g.wall))
     nrandom = len(cases)
     exh, nexh = [], 0
